@@ -143,7 +143,7 @@ NextStep(l, xr) ==
         t1 == SubC(l.to, 1)
         t2 == IF t1.ok THEN SubC(t1.v, l.i) ELSE Ovf
         y == IF t2.ok THEN AbsC(t2.v) ELSE Ovf
-    IN IF ~d.ok \/ ~x.ok \/ ~y.ok THEN [run |-> TRUE, l |-> l, ex |-> <<>>, res |-> Panic]
+    IN IF l.ps = <<>> \/ ~d.ok \/ ~x.ok \/ ~y.ok THEN [run |-> TRUE, l |-> l, ex |-> <<>>, res |-> Panic]      \* (no group: % 0)
        ELSE
          LET vals == [k \in 1..Len(g) |-> ParamValue(g[k], x.v, y.v)] \o <<>>
              ps == FoldLeft(LAMBDA acc, v : IF v.k = "val" THEN Append(acc, v.v) ELSE acc, <<>>, vals)
@@ -185,12 +185,16 @@ LoopLex(st, c, xr) ==
          IF IsDigit(c) THEN Out([st EXCEPT !.nums = PushDigit(@, c)], <<>>, NoUpd)
          ELSE IF c = chComma THEN Out([st EXCEPT !.lp = << << <<>> >> >>, !.gdc = FALSE, !.ls = "ReadParameter"], <<>>, NoUpd)
          ELSE Out([st EXCEPT !.state = "Default", !.cmd = ""], <<>>, NoUpd)
-    [] OTHER ->      \* ReadParameter
+    [] OTHER ->      \* ReadParameter.  Reachable states have 5 numbers and a non-empty list of non-empty groups (MC_Igs!Total);
+                     \* elsewhere the code indexes / unwraps and panics - kept so that the model is total on ANY lexer state
          IF c \in {chUnder, chLF, chCR} THEN Out(st, <<>>, NoUpd)
          ELSE IF c = chComma \/ c = chColon THEN
-           (IF st.nums[5] <= NParams(st.lp) THEN FireLoop(st, xr)
-            ELSE IF c = chComma THEN Out([st EXCEPT !.lp = [@ EXCEPT ![Len(@)] = Append(@, <<>>)]], <<>>, NoUpd)
-            ELSE Out([st EXCEPT !.lp = Append(@, << <<>> >>)], <<>>, NoUpd))
+           (IF Len(st.nums) < 5 THEN Out(st, <<>>, Panic)
+            ELSE IF st.nums[5] <= NParams(st.lp) THEN FireLoop(st, xr)
+            ELSE IF c = chColon THEN Out([st EXCEPT !.lp = Append(@, << <<>> >>)], <<>>, NoUpd)
+            ELSE IF st.lp = <<>> THEN Out(st, <<>>, Panic)
+            ELSE Out([st EXCEPT !.lp = [@ EXCEPT ![Len(@)] = Append(@, <<>>)]], <<>>, NoUpd))
+         ELSE IF st.lp = <<>> \/ st.lp[Len(st.lp)] = <<>> THEN Out(st, <<>>, Panic)
          ELSE Out([st EXCEPT !.lp = AppendToLast(@, c)], <<>>, NoUpd)
 
 \* ---- print_char
